@@ -32,4 +32,22 @@ Example C04_example :
   fst (reg_init {| t_init := false; t_during := false; t_be := false; t_areas := [mk 0 4]; t_entries := [e TU16 0; e TU32 3] |}) = (IEntryHole, 1) /\\
   fst (reg_init {| t_init := false; t_during := false; t_be := false; t_areas := [mk 0 4]; t_entries := [e TU16 0; e TU32 2] |}) = (ISuccess, 0).
 Proof. repeat split; vm_compute; reflexivity. Qed.
+
+(* the post-state theorems are not vacuous: a plain table (stale memory content 7) whose initialisation succeeds; afterwards the
+   registers hold their defaults, the word no register covers is zero and the area records registers 0..1 *)
+Example C04_post_state_example :
+  let a := {| a_base := 0; a_size := 4; a_readable := true; a_writeable := true; a_skip := false; a_has_read := true;
+              a_has_write := true; a_is_mem := true; a_words := [7; 7; 7; 7]; a_first := 0; a_last := 0; a_count := 0 |} in
+  let e ty ad := {| e_type := ty; e_default := 1; e_addr := ad; e_check := CTrivial; e_touched := false |} in
+  let t := {| t_init := false; t_during := false; t_be := false; t_areas := [a]; t_entries := [e TU16 0; e TU32 2] |} in
+  plain_table t /\\
+  match reg_init t with
+  | ((ISuccess, _), t') => map (fun b => (a_words b, a_first b, a_last b, a_count b)) (t_areas t') = [([1; 0; 1; 0], 0, 1, 2)]
+  | _ => False
+  end.
+Proof.
+  split.
+  - split; repeat constructor; cbn; try discriminate; lia.
+  - vm_compute. reflexivity.
+Qed.
 '''
